@@ -46,7 +46,9 @@ def gen(rng, hazards=()):
         rows = rng.choice([2, 2, 4, 1, rng.randint(1, 4)])
         i2c = rng.random() < 0.4
         bl = None
+        wiring = None
         if i2c:
+            wiring = ("i2c", 0x27 - i, cols, rows)
             if rng.random() < 0.3:
                 L += [f"ncols{i} = {cols}", f"nrows{i} = {rows}"]  # geometry named by user variables
                 L.append(f"lcd{i} = LCD(i2c_addr={0x27 - i}, cols=ncols{i}, rows=nrows{i})")
@@ -58,10 +60,17 @@ def gen(rng, hazards=()):
             if rng.random() < 0.5:
                 bl = nxt()
                 extra += f", backlight_pin={bl}"
+            rw = -1
             if rng.random() < 0.3:
-                extra += f", rw={nxt()}"
-            L.append(f"lcd{i} = LCD(rs={pins[0]}, en={pins[1]}, d4={pins[2]}, d5={pins[3]}, d6={pins[4]}, d7={pins[5]}, cols={cols}, rows={rows}{extra})")
-        lcds.append({"name": f"lcd{i}", "cols": cols, "rows": rows, "i2c": i2c, "bl": bl, "idx": i})
+                rw = nxt()
+                extra += f", rw={rw}"
+            kws = [f"rs={pins[0]}", f"en={pins[1]}", f"d4={pins[2]}", f"d5={pins[3]}", f"d6={pins[4]}", f"d7={pins[5]}", f"cols={cols}", f"rows={rows}"] + \
+                  [x.strip() for x in extra.split(",") if x.strip()]
+            if rng.random() < 0.4:
+                rng.shuffle(kws)   # every parameter is keyword-only: any order is the same call
+            L.append(f"lcd{i} = LCD({', '.join(kws)})")
+            wiring = ("parallel", pins[0], rw, pins[1], pins[2], pins[3], pins[4], pins[5])
+        lcds.append({"name": f"lcd{i}", "cols": cols, "rows": rows, "i2c": i2c, "bl": bl, "idx": i, "wiring": wiring})
     ops = []
     nvar = [0]
     body = []
@@ -204,6 +213,24 @@ def to_host_chars(s: str) -> str:
 
 def compare(fw_events, py_events, lcds, ops):
     problems = []
+    # the library object is constructed with exactly the declared wiring (pins / bus address) and begun with the declared size
+    ctor = {int(f[0]): f[2:] for t, kind, f in fw_events if kind == "LCD" and f[1] == "CTOR"}
+    begun = {int(f[0]): f for t, kind, f in fw_events if kind == "LCD" and f[1] == "BEGIN"}
+    for lcd in lcds:
+        w = lcd.get("wiring")
+        if not w:
+            continue
+        got = ctor.get(lcd["idx"])
+        if got is None:
+            problems.append(("lcd-ctor-missing", f"LCD {lcd['idx']} was never constructed on the device"))
+            continue
+        want = [w[0]] + [str(x) for x in (w[1:2] if w[0] == "i2c" else w[1:])]
+        have = list(got[:2]) if w[0] == "i2c" else list(got)
+        if have != want:
+            problems.append(("lcd-wiring", f"LCD {lcd['idx']} constructed as {have}, declared {want} (kind, rs, rw, en, d4..d7 / bus address)"))
+        b = begun.get(lcd["idx"])
+        if b is not None and (int(b[-2]), int(b[-1])) != (lcd["cols"], lcd["rows"]):
+            problems.append(("lcd-geometry", f"LCD {lcd['idx']} begun as {b[-2]}x{b[-1]}, declared {lcd['cols']}x{lcd['rows']}"))
     # device snapshots per marker occurrence (a marker inside the main loop occurs once per pass)
     fw_seq = []
     cur = None
